@@ -27,6 +27,7 @@ type config struct {
 	Pkgs    []string          `json:"pkgs"`
 	Watch   []string          `json:"watch"`   // "Type.field"
 	WatchSlices []string      `json:"watch_slice_types"` // element-level tracking for slices of these types (types.TypeString)
+	WatchPointees []string    `json:"watch_pointee_types"` // method-call-level tracking of the objects behind pointers of these types (types.TypeString, e.g. "*math/big.Int")
 	NoTime  bool              `json:"no_time"` // keep the real package time
 	KeepMapOrder bool         `json:"keep_map_order"` // do not rewrite range-over-map
 	Sources map[string]string `json:"sources"` // repo-relative file -> replacement content path
@@ -46,6 +47,7 @@ var (
 	info  *types.Info
 	watch = map[string]bool{}
 	watchSlices = map[string]bool{}
+	watchPointees = map[string]bool{}
 	generated = map[ast.Node]bool{}
 	uniq  int
 	keepMapOrder bool
@@ -131,6 +133,65 @@ func isWatchedSlice(e ast.Expr) bool {
 		return false
 	}
 	return watchSlices[types.TypeString(tv.Type, nil)]
+}
+
+// isWatchedPointee: e is a side-effect-free expression (identifier, field selection,
+// dereference) whose type is one of the watched pointer types.
+func isWatchedPointee(e ast.Expr) bool {
+	if len(watchPointees) == 0 {
+		return false
+	}
+	tv, ok := info.Types[e]
+	if !ok || tv.Type == nil || !watchPointees[types.TypeString(tv.Type, nil)] {
+		return false
+	}
+	var pure func(e ast.Expr) bool
+	pure = func(e ast.Expr) bool {
+		switch x := e.(type) {
+		case *ast.Ident:
+			return x.Name != "nil"
+		case *ast.ParenExpr:
+			return pure(x.X)
+		case *ast.StarExpr:
+			return pure(x.X)
+		case *ast.SelectorExpr:
+			if sl := info.Selections[x]; sl != nil && sl.Kind() == types.FieldVal {
+				return pure(x.X)
+			}
+			if _, ok := x.X.(*ast.Ident); ok && info.Selections[x] == nil {
+				_, isVar := info.Uses[x.Sel].(*types.Var) // package-level variable of another package
+				return isVar
+			}
+		}
+		return false
+	}
+	return pure(e)
+}
+
+// pointeeMethodWrites: the method follows the math/big convention (the receiver is
+// the destination) when it returns the receiver's type, or is a setter/decoder.
+func pointeeMethodWrites(s *ast.SelectorExpr) bool {
+	sl := info.Selections[s]
+	if sl == nil {
+		return true
+	}
+	name := s.Sel.Name
+	for _, p := range []string{"Set", "Unmarshal", "GobDecode", "Scan"} {
+		if strings.HasPrefix(name, p) {
+			return true
+		}
+	}
+	sig, ok := sl.Type().(*types.Signature)
+	if !ok {
+		return true
+	}
+	recv := types.TypeString(sl.Recv(), nil)
+	for i := 0; i < sig.Results().Len(); i++ {
+		if types.TypeString(sig.Results().At(i).Type(), nil) == recv {
+			return true
+		}
+	}
+	return false
 }
 
 func elemAddr(x, idx ast.Expr) ast.Expr {
@@ -240,6 +301,21 @@ func collectTouches(stmt ast.Stmt) []touch {
 						n = call(id("len"), x.Args[1])
 					}
 					out = append(out, touch{raw: call(sel("vsched", "TouchAppend"), x.Args[0], n)})
+				}
+				if len(watchPointees) > 0 {
+					if fs, ok := x.Fun.(*ast.SelectorExpr); ok {
+						// only methods of the watched type itself are known to read their operands
+						if sl := info.Selections[fs]; sl != nil && sl.Kind() == types.MethodVal && watchPointees[types.TypeString(sl.Recv(), nil)] {
+							if isWatchedPointee(fs.X) {
+								out = append(out, touch{obj: fs.X, field: "pointee", write: pointeeMethodWrites(fs)})
+							}
+							for _, a := range x.Args {
+								if isWatchedPointee(a) {
+									out = append(out, touch{obj: a, field: "pointee", write: false})
+								}
+							}
+						}
+					}
 				}
 				if f, ok := x.Fun.(*ast.Ident); ok && f.Name == "copy" && len(x.Args) == 2 && (isWatchedSlice(x.Args[0]) || isWatchedSlice(x.Args[1])) {
 					out = append(out, touch{raw: call(sel("vsched", "TouchCopy"), x.Args[0], x.Args[1])})
@@ -462,7 +538,7 @@ func rewriteRange(r *ast.RangeStmt) ast.Stmt {
 
 func processFile(f *ast.File) {
 	// 1. touches (before structural rewriting, while type info still matches the nodes)
-	if len(watch) > 0 || len(watchSlices) > 0 {
+	if len(watch) > 0 || len(watchSlices) > 0 || len(watchPointees) > 0 {
 		astutil.Apply(f, func(c *astutil.Cursor) bool {
 			if generated[c.Node()] {
 				return false
@@ -668,6 +744,9 @@ func main() {
 	keepMapOrder = cfg.KeepMapOrder
 	for _, w := range cfg.WatchSlices {
 		watchSlices[w] = true
+	}
+	for _, w := range cfg.WatchPointees {
+		watchPointees[w] = true
 	}
 	overlay := map[string][]byte{}
 	for rel, p := range cfg.Sources {
